@@ -1555,9 +1555,10 @@ class Color(object):
     @staticmethod
     def parse_color_rgb(values):
         """Parse SVG Color, RGB value declarations"""
-        r = int(round(float(values[0])))
-        g = int(round(float(values[1])))
-        b = int(round(float(values[2])))
+        # Out of range components clamp (also 1e999, which is infinite as a float and cannot be rounded).
+        r = int(round(min(max(float(values[0]), 0.0), 255.0)))
+        g = int(round(min(max(float(values[1]), 0.0), 255.0)))
+        b = int(round(min(max(float(values[2]), 0.0), 255.0)))
         if values[3] is not None:
             opacity = float(values[3])
         else:
@@ -1568,9 +1569,9 @@ class Color(object):
     def parse_color_rgbp(values):
         """Parse SVG color, RGB percent value declarations"""
         ratio = 255.0 / 100.0
-        r = round(float(values[0]) * ratio)
-        g = round(float(values[1]) * ratio)
-        b = round(float(values[2]) * ratio)
+        r = round(min(max(float(values[0]), 0.0), 100.0) * ratio)
+        g = round(min(max(float(values[1]), 0.0), 100.0) * ratio)
+        b = round(min(max(float(values[2]), 0.0), 100.0) * ratio)
         if values[3] is not None:
             opacity = float(values[3])
         else:
@@ -1693,7 +1694,7 @@ class Color(object):
     def opacity(self, opacity):
         if self.value is None:
             raise ValueError
-        a = int(round(opacity * 255.0))
+        a = int(round(min(max(opacity, 0.0), 1.0) * 255.0))
         a = Color.crimp(a)
         self.alpha = a
 
